@@ -131,13 +131,18 @@ class SolutionTracks(Tracks):
             ndim=tracks.ndim,
             features=tracks.features,
         )
-        if force_recompute:
-            soln_tracks.enable_features(
-                [
-                    soln_tracks.features.tracklet_key,  # type: ignore[list-item]
-                    soln_tracks.features.lineage_key,  # type: ignore[list-item]
-                ]
-            )
+        # Always make sure the track features are registered and active (a plain Tracks
+        # object does not register them): recompute the ids only if some are missing,
+        # otherwise trust the existing ones. Without this, an empty graph (or one whose
+        # nodes all carry ids already) gave a solution whose track ids and lookups
+        # were never maintained.
+        soln_tracks.enable_features(
+            [
+                soln_tracks.features.tracklet_key,  # type: ignore[list-item]
+                soln_tracks.features.lineage_key,  # type: ignore[list-item]
+            ],
+            recompute=force_recompute,
+        )
         return soln_tracks
 
     @property
